@@ -407,6 +407,41 @@ def add_offset(inst, c=2 ** 20):
     inst["large_offset"] = True
 
 
+def add_jitter(inst):
+    """Stratum "rounding-level splitting": one partner of a degenerate pair inside a fully diagonalised block
+    is PRESENTED with its level raised by 2^-48 (3.6e-15, the size of rounding after a change of basis; the
+    library's tolerance for equal levels is 1e-12).  The abstract instance -- and the truth -- keeps the pair
+    exactly degenerate; float outputs deviate by rounding-size amounts and are snapped (alpha_snap)."""
+    if (inst.get("basis") or inst.get("large_offset") or inst.get("int_dtype") or inst.get("h0_extra")
+            or inst["vtype"] not in ("numpy", "numpy_complex", "sparse") or not inst.get("hermitian", True)):
+        return False
+    E = [epair(e) for e in inst["E"]]
+    blk = inst["sub_idx"]
+    fdb = set(inst["fd_blocks"]) if inst["fdkind"] == "tuple" else (
+        {0} if len(inst["sizes"]) == 1 and inst["fdkind"] == "none" else set())
+    for i in range(inst["d"]):
+        for j in range(i + 1, inst["d"]):
+            if blk[i] == blk[j] and blk[i] in fdb and E[i] == E[j] and E[i][1] == 0 and abs(E[i][0]) < 8:
+                inst["jitter"] = j
+                return True
+    return False
+
+
+def shrink_parameter(inst, bits=30):
+    """Stratum "tiny term": the LAST perturbation parameter is rescaled by 2^-bits (its first-order term has
+    entries of about 1e-9: far above the library's zero tolerance 1e-12, far below numpy's default 1e-8).
+    Exact for floats: every multi-order is homogeneous in the scale.  Only when the parameter occurs to the
+    first power (a second-power term would be 2^-60 < atol and rightly counts as zero)."""
+    j = inst["k"] - 1
+    if any(n[j] > 1 for n in inst["terms"]) or not any(n[j] == 1 for n in inst["terms"]):
+        return False
+    sc = Fraction(1, 2 ** bits)
+    inst["terms"] = {n: ([[(x * sc, y * sc) for (x, y) in row] for row in m] if n[j] == 1 else m)
+                     for n, m in inst["terms"].items()}
+    inst["tiny_parameter"] = j
+    return True
+
+
 def dyadic_gaps(inst):
     """Every eliminated pair has an energy difference whose real and imaginary parts are 0 or +-2^k."""
     keep, E = keep_pattern(inst)
@@ -513,6 +548,13 @@ def concrete_hamiltonian(inst):
             out[n] = sparse.csr_array(int_cast(to_numpy(m), inst))
         else:
             raise ValueError(vt)
+    jit = inst.get("jitter")
+    if jit is not None and vt in ("numpy", "numpy_complex", "sparse") and not inst.get("basis"):
+        z = (0,) * k
+        h = out[z].toarray() if vt == "sparse" else np.array(out[z])
+        h = h.astype(complex if np.iscomplexobj(h) else float)
+        h[jit, jit] += 2.0 ** -48
+        out[z] = sparse.csr_array(h) if vt == "sparse" else h
     return out
 
 
@@ -684,6 +726,9 @@ def lib_order(inst, n):
 
 
 SNAP_BITS = 40
+# set per instance (make_session / the relation runner): True for the "tiny term" stratum, whose exact outputs are
+# small numerators over 2^60 ...; False otherwise (then a value like 2^-48 is rounding noise and snaps to 0)
+EXACT_TINY = False
 
 
 def red_value(x, p):
@@ -696,7 +741,10 @@ def red_value(x, p):
             if not np.isfinite(v):
                 raise NonFinite(repr(x))
             q = Fraction(v)
-            if q.denominator.bit_length() > SNAP_BITS:
+            if q.denominator.bit_length() > SNAP_BITS and not (
+                    EXACT_TINY and abs(q.numerator).bit_length() <= SNAP_BITS):
+                # (a small numerator over a large power of two is an EXACT tiny dyadic -- the "tiny term"
+                # stratum produces 2^-60 ... -- and is reduced as it stands)
                 # alpha_snap: rounding happened; accept the nearest dyadic with a
                 # bounded denominator only if it is within rounding distance.
                 s = Fraction(round(v * 2**SNAP_BITS), 2**SNAP_BITS)
@@ -794,11 +842,13 @@ def make_session(inst, sid, p, outputs=None, spectrum=1):
     """Run the real code on `inst` and build the session record."""
     if outputs is None:
         outputs = run_block_diagonalize(inst)
+    global EXACT_TINY
     Ht, U, Ud = outputs
     sizes = inst["sizes"]
     k, N = inst["k"], inst["N"]
     ords = order_seq(k, N)
     out = []
+    EXACT_TINY = inst.get("tiny_parameter") is not None
     for n in ords:
         ln = lib_order(inst, n)
         sb = inst.get("_esubs")
@@ -827,7 +877,8 @@ def describe(inst):
         k=inst["k"], N=inst["N"], vtype=inst["vtype"], fdkind=inst["fdkind"],
         fd_blocks=inst["fd_blocks"], hermitian=inst.get("hermitian", True),
         format=inst.get("format", "dict"), symnames=inst.get("symnames"), int_dtype=bool(inst.get("int_dtype")),
-        symbolic_consts=bool(inst.get("symbolic_consts")),
+        symbolic_consts=bool(inst.get("symbolic_consts")), jitter=inst.get("jitter"),
+        tiny_parameter=inst.get("tiny_parameter"),
         masks={str(b): m.astype(int).tolist() for b, m in inst["masks"].items()},
         terms={",".join(map(str, n)): [[[f(x), f(y)] for (x, y) in row] for row in m]
                for n, m in inst["terms"].items()},
@@ -848,7 +899,8 @@ def from_description(desc):
         k=desc["k"], N=desc["N"], vtype=desc["vtype"], fdkind=desc["fdkind"],
         fd_blocks=desc["fd_blocks"], hermitian=desc.get("hermitian", True),
         format=desc.get("format", "dict"), symnames=desc.get("symnames"), int_dtype=desc.get("int_dtype", False),
-        symbolic_consts=desc.get("symbolic_consts", False),
+        symbolic_consts=desc.get("symbolic_consts", False), jitter=desc.get("jitter"),
+        tiny_parameter=desc.get("tiny_parameter"),
         masks={int(b): np.array(m, dtype=bool) for b, m in desc["masks"].items()},
         terms={tuple(int(x) for x in n.split(",")): [[(g(x), g(y)) for (x, y) in row] for row in m]
                for n, m in desc["terms"].items()},
